@@ -11,6 +11,7 @@ import (
 	"os"
 	"path/filepath"
 	"sort"
+	"strconv"
 	"strings"
 
 	intoto "github.com/in-toto/in-toto-golang/in_toto"
@@ -409,6 +410,22 @@ func defOpt(follow, norm bool) ref.WalkOpt {
 	return ref.WalkOpt{Follow: follow, Normalise: norm, Algs: []string{"sha256"}, Paths: []string{"root"}}
 }
 
+func lineEndingContents(maxLen int) []string {
+	out := []string{""}
+	prev := []string{""}
+	for l := 1; l <= maxLen; l++ {
+		var cur []string
+		for _, p := range prev {
+			for _, a := range []string{"\r", "\n", "x"} {
+				cur = append(cur, p+a)
+			}
+		}
+		out = append(out, cur...)
+		prev = cur
+	}
+	return out
+}
+
 // ---- run / record histories ----------------------------------------------------------------------
 
 var changes = []string{"nothing", "create", "modify", "modify-same-size-and-mtime", "delete", "rename"}
@@ -727,6 +744,23 @@ func run(c *mcx.Ctx) {
 			emitViolation(Case{Part: "big-file", Tree: "a=big b=l:a", Opt: o}, obs, sig)
 		}
 	}
+	// (a3) every string of length <= 4 over {CR, LF, x} as the content of one file (line endings at the very start
+	// and the very end of a file, runs of them, a lone CR as the last byte), under both settings of the switch
+	for _, content := range lineEndingContents(4) {
+		for _, norm := range []bool{false, true} {
+			n++
+			if !c.Mine(n) || len(c.Rep.Caps) > 0 {
+				continue
+			}
+			f := []*ref.Node{{Name: "a", Kind: 'f', Content: []byte(content)}}
+			o := defOpt(false, norm)
+			obs, sig := recordCase(c, f, o)
+			c.Case(true)
+			c.Step(1, 1)
+			c.Outcome("line-endings|" + strings.SplitN(obs, " ", 2)[0])
+			emitViolation(Case{Part: "line-endings", Tree: fmt.Sprintf("%q", content), Opt: o}, obs, sig)
+		}
+	}
 	// (b) run / record histories on the trees with <= 2 nodes (one content)
 	for _, shape := range forests(2, 2, 0, 1) {
 		assignTargets(shape, func(f []*ref.Node) {
@@ -807,6 +841,12 @@ func replay(c *mcx.Ctx, raw json.RawMessage) (string, string) {
 	switch cs.Part {
 	case "big-file":
 		return recordCase(c, []*ref.Node{{Name: "a", Kind: 'f', Content: bigCRLF}, {Name: "b", Kind: 'l', Target: "a"}}, cs.Opt)
+	case "line-endings":
+		content, err := strconv.Unquote(cs.Tree)
+		if err != nil {
+			return "bad content", ""
+		}
+		return recordCase(c, []*ref.Node{{Name: "a", Kind: 'f', Content: []byte(content)}}, cs.Opt)
 	case "trees", "options":
 		return recordCase(c, parse(cs.Tree), cs.Opt)
 	case "history":
@@ -826,7 +866,7 @@ func init() {
 	mcx.Register(&mcx.Driver{
 		ID: "C13", Run: run, Replay: replay,
 		Rule: "(a) every directory tree with <= 4 (thorough 5) nodes below the recorded root: names {a,b,c}, depth <= 3, regular files with 4 contents (LF, CR/LF/CRLF mix, empty, 256 distinct bytes), directories, symbolic links whose target is every other node, '..', the link itself, a missing name or a file outside the recorded path (file links, directory links, chains, cycles, dangling links arise by construction), each materialised on disk and recorded under {follow directory links} x {normalise line endings}; " +
-			"(a') on all trees <= 3 nodes one deviation at a time of: 5 algorithm lists (two, sha384, none, unknown, three), 2 exclude patterns, 7 strip-prefix lists (incl. a second prefix that matches the remainder) x follow; a 100 KiB CR/LF file under normalise x follow, 4 path lists (two paths, duplicate, missing, reversed) and 4 lists of short names recorded from inside the directory; (b) InTotoRun and InTotoRecordStart/Stop (also with the wrong key) x 6 changes between the snapshots (incl. a same-size rewrite that keeps the modification time) x trees <= 2 nodes x wrappers, and on a tree with CR/LF content and a directory behind a link under all four combinations of {follow, normalise} x {run, record} x 3 changes x wrappers; (c) InTotoMatchProducts for the 81 combinations of two link products and two local files in {absent, 1, 2}, with equal algorithm lists and with 3 pairs of disjoint ones (nothing the two recordings have in common can make a product count as unchanged). " +
+			"(a') on all trees <= 3 nodes one deviation at a time of: 5 algorithm lists (two, sha384, none, unknown, three), 2 exclude patterns, 7 strip-prefix lists (incl. a second prefix that matches the remainder) x follow; a 100 KiB CR/LF file under normalise x follow, every string of length <= 4 over {CR, LF, x} as a file's content under normalise on / off, 4 path lists (two paths, duplicate, missing, reversed) and 4 lists of short names recorded from inside the directory; (b) InTotoRun and InTotoRecordStart/Stop (also with the wrong key) x 6 changes between the snapshots (incl. a same-size rewrite that keeps the modification time) x trees <= 2 nodes x wrappers, and on a tree with CR/LF content and a directory behind a link under all four combinations of {follow, normalise} x {run, record} x 3 changes x wrappers; (c) InTotoMatchProducts for the 81 combinations of two link products and two local files in {absent, 1, 2}, with equal algorithm lists and with 3 pairs of disjoint ones (nothing the two recordings have in common can make a product count as unchanged). " +
 			"Oracle: ref.Walk on the description (never touches the disk). states = trees, transitions = recordings. non-trivial = non-empty tree.",
 		Assumptions: []string{"an exclude pattern on a tree with symbolic links is judged only where holding it against the name path and against the real location give the same result (which of the two counts is not fixed by the statement); so is a plain-name pattern that names a directory (whether the directory's contents are recorded)", "error text is not compared, only error versus artifacts"},
 		BudgetQuick: 200e9,
